@@ -13,7 +13,7 @@ def engine(ctx):
                and f.file.endswith("taint_control.cc")]
         scope |= ctx.F.reach(ctl)
         finders = [S.alloc_sinks, S.loopgrow_sinks, S.enumcast_sinks,
-                   S.subscript_sinks, S.rawwin_sinks, S.faceidx_sinks, S.loopbound_sinks]
+                   S.subscript_sinks, S.rawwin_sinks, S.faceidx_sinks, S.loopbound_sinks, S.writelen_sinks]
         ctx._engine = Engine(ctx.F, scope, src["sources"], src["remaining"],
                              decl["declared"], finders)
         ctx._engine_tables = (src, decl)
